@@ -10,7 +10,7 @@ HOOKS = {
 ENGINES = [
     {"name": "kani", "path": "bin/check", "serves_properties": ["C01", "C02", "C03", "C04", "C05", "C06", "C07", "C10", "C11", "C12", "C13", "C14", "C15", "C16", "C17", "C18", "C19"],
      "kind_free_text": "Kani 0.68 / CBMC 6.11 harness crate (kani/src) built against /repo's crates on every run; bounded stand-in and counterexample generator; replay binary kh-replay re-runs a counterexample on the stable toolchain"},
-    {"name": "verus", "path": "bin/check", "serves_properties": ["C01", "C02", "C03", "C04", "C05", "C06", "C07", "C08", "C10", "C11", "C12", "C13", "C14", "C15", "C16", "C18", "C19"],
+    {"name": "verus", "path": "bin/check", "serves_properties": ["C01", "C02", "C03", "C04", "C05", "C06", "C07", "C08", "C10", "C11", "C12", "C13", "C14", "C15", "C16", "C17", "C18", "C19"],
      "kind_free_text": "contract templates (specs/*.vrs) whose holes are filled with the real items/function bodies of /repo by the vx extractor on every run; Verus 0.2026.09.13 (Z3) discharges every obligation"},
 ]
 NOTES = ("Technique family: contract-based deductive verification of the real code. exit 2 = undecided (lost anchor, unsupported construct, "
@@ -196,6 +196,10 @@ for _p in ("C07", "C13", "C14", "C15", "C18"):
 CLAIMS["C11"]["text"] = ("Verus (unbounded, the `Linear` impls only): Plushy::size counts every gene, close markers included; Vector::size / Bitstring::size are the number of genes; gene_mut addresses "
     "exactly the gene at its position. Kani (the mutators themselves): " + CLAIMS["C11"]["text"])
 CLAIMS["C11"]["technique"] = "bounded stand-in: Kani/CBMC harnesses on the compiled crates (symbolic random stream, cover! witnesses) + Verus contracts on the real Linear impls the mutators measure genomes with"
+CLAIMS["C17"]["text"] = ("Verus (any wrapped implementation): the five blanket impls `impl<T: X> DynX for T` — dyn_select, dyn_mutate, dyn_recombine, dyn_apply, dyn_make_child — return the wrapped "
+    "call's value, its error converted by Into, and leave the random stream in the wrapped call's final state. Kani (the macro-generated impls for the pointer flavours, which Verus cannot take: "
+    "unsizing to &mut dyn RngCore): " + CLAIMS["C17"]["text"])
+CLAIMS["C17"]["technique"] = "Verus contracts on the real blanket Dyn* impls (generic in the wrapped implementation) + bounded Kani harnesses on the compiled generated pointer impls (symbolic probe implementation)"
 CLAIMS["C12"]["technique"] = "bounded stand-in: Kani/CBMC harnesses on the compiled crates (thresholds on a constant stream, all random words) + a Verus contract on the real UniformXo loop (one coin per position, unbounded)"
 CLAIMS["C05"]["technique"] += "; fallback for rewritten parsers: exhaustive enumeration of all genomes up to length 6 (thorough 8) executed natively against a reference (bounded, no verifier)"
 for _p in ("C01", "C02", "C03"):
